@@ -6,9 +6,25 @@ except ImportError as e:
 import warnings
 from pathlib import Path
 
+import numpy as np
 from zarr.storage import StoreLike
 
 from geff.core_io._base_read import read_to_memory
+
+
+def _masked_series(values: np.ndarray, missing: np.ndarray | None) -> pd.Series:
+    """One table column; entries flagged missing become NA/NaN cells."""
+    series = pd.Series(values)
+    if missing is not None and any(missing):
+        # Boolean and integer columns cannot hold NaN: masking them fails (bool) or rounds
+        # the remaining values through float64 (int), so switch to pandas' nullable dtypes
+        kind = series.dtype.kind
+        if kind == "b":
+            series = series.astype("boolean")
+        elif kind in "iu":
+            series = series.astype(f"{'U' if kind == 'u' else ''}Int{8 * series.dtype.itemsize}")
+        series = series.mask(missing)
+    return series
 
 
 def geff_to_dataframes(
@@ -56,10 +72,7 @@ def geff_to_dataframes(
             if ndim == 2:
                 # After squeezing out singleton dimensions, second dim must be > 1
                 for i in range(values.shape[1]):
-                    series = pd.Series(values[:, i])
-                    if missing is not None and any(missing):
-                        series.mask(missing, inplace=True)
-                    df_dict[f"{name}_{i}"] = series
+                    df_dict[f"{name}_{i}"] = _masked_series(values[:, i], missing)
 
             elif ndim > 2:
                 warnings.warn(
@@ -70,10 +83,7 @@ def geff_to_dataframes(
                 continue
             else:
                 # Data is 1d
-                series = pd.Series(values)
-                if missing is not None and any(missing):
-                    series.mask(missing, inplace=True)
-                df_dict[name] = series
+                df_dict[name] = _masked_series(values, missing)
 
         dataframes.append(pd.DataFrame(df_dict))
 
